@@ -566,3 +566,81 @@ def rule_refuse_before_mutation(ctx):
     else:
         ctx.holds("REFUSEFIRST", key, f.where(first), "%s are all checked before the first mutation of the dimension list" % ", ".join(sorted(post | set(via))), nontrivial=True)
     return 1
+
+
+def rule_shape_needs_rank(ctx):
+    """SHAPE0 (C03): a rank-0 (scalar) variable has no shape array (`shape == NULL`).  In the public SD functions every read of
+    `var->shape[k]` is therefore enclosed by something that implies rank > 0: a loop or a test over `assoc->count` / the rank, a
+    test of `shape` itself, or a test of the dimension id that was used to find the variable."""
+    from .codec import ast_walk
+    prog = ctx.prog
+    n = 0
+    for f in prog.lib_funcs():
+        if not f.rel.endswith("mfsd.c") or not prog.is_public(f.name):
+            continue
+        sites = []
+        # locals loaded with the variable's rank
+        rank_vars = {"rank", "dim", "dimindex", "dimidx"}
+        for _b, _i, _s, x in f.nodes(True):
+            if x[0] == "asg" and x[1] == "=" and kind(strip(x[2])) == "var" and any(y[0] == "mem" and y[2] == "count" for y in walk(x[3], True)):
+                rank_vars.add(strip(x[2])[1])
+        # early exits taken when the variable has no shape: `if (var->shape == NULL) { ...; goto done; }`
+        early = []
+
+        def ve(nn, st):
+            if nn[0] == "if" and any(y[0] == "mem" and y[2] == "shape" for y in walk(nn[1], True)):
+                leaves = []
+
+                def vl(m, st2):
+                    if m[0] == "goto" or (m[0] == "s" and kind(m[1]) == "ret"):
+                        leaves.append(m)
+                    return True
+                ast_walk(nn[2], vl, [])
+                if leaves:
+                    early.append(nn[4])
+            return True
+        ast_walk(f.raw.get("ast"), ve)
+
+        def implies_rank(e):
+            for y in walk(e, True):
+                if y[0] == "mem" and y[2] in ("count", "shape", "ndims"):
+                    return True
+                if y[0] == "var" and y[1] in rank_vars:
+                    return True
+            return False
+
+        def vis(nn, st):
+            exprs = []
+            if nn[0] in ("s", "if", "while", "switch"):
+                exprs = [nn[1]]
+            elif nn[0] == "for":
+                exprs = [x for x in nn[1:4] if x is not None]
+            for e in exprs:
+                for x in walk(e, True):
+                    if x[0] == "idx" and (mem_field(x[1]) or (0, 0)) == ("NC_var", "shape"):
+                        guards = [a for a in st if a[0] in ("if", "for", "while")]
+                        ok = any(implies_rank(a[1] if a[0] != "for" else (a[2] or ["int", 0])) for a in guards)
+                        # `(shape != NULL) ? shape[0] : ..` inside the same expression (IS_RECVAR)
+                        for y in walk(e, True):
+                            if y[0] == "cond" and implies_rank(y[1]) and any(z is x for z in walk(y[2], True)):
+                                ok = True
+                            if y[0] == "bin" and y[1] == "&&" and implies_rank(y[2]) and any(z is x for z in walk(y[3], True)):
+                                ok = True
+                        if nn[0] == "for" and implies_rank(nn[2] or ["int", 0]):
+                            ok = True
+                        ln = nn[-3] if isinstance(nn[-3], int) else 0
+                        if any(l < ln for l in early):
+                            ok = True
+                        sites.append((x, nn, ok))
+            return True
+        ast_walk(f.raw.get("ast"), vis)
+        for k, (x, nn, ok) in enumerate(sites):
+            n += 1
+            key = "SHAPE0:%s#%d" % (f.name, k + 1)
+            line = nn[-3] if isinstance(nn[-3], int) else f.line
+            if ok:
+                ctx.holds("SHAPE0", key, f.where(line), "`%s` is read under a test that implies rank > 0" % render(x)[:30], nontrivial=True)
+            else:
+                ctx.violated("SHAPE0", key, f.where(line), "`%s` is read without anything that implies the variable has a dimension: for a rank-0 data set `shape` is NULL" % render(x)[:30])
+    ctx.floor("SHAPE0", 3, n, "(reads of var->shape[k] in the public SD functions)")
+    return n
